@@ -128,7 +128,7 @@ def run(ctx):
                 if const:
                     c["const"] = const
                 ojobs.append({"id": 10 ** 5 + len(ojobs), "calls": [c], "expect_h": {"name": "n", "help": "h", "const": sorted(map(list, const)), "buckets": b}})
-    res = run_api(ctx, exe, jobs + [{"id": j["id"], "calls": j["calls"]} for j in ojobs], "macro", nproc=12)
+    res = run_api(ctx, exe, vary_builder_order(jobs, ctx.seed) + [{"id": j["id"], "calls": j["calls"]} for j in ojobs], "macro", nproc=12)
     nok = 0
     for j, (marks, name), c in zip(jobs, meta, cases):
         rs = res[j["id"]]
